@@ -345,6 +345,7 @@ func projectDisp(s *vt.Sched, j int, qid string) ([]string, bool) {
 	// before curProcessing; Broadcast is issued under the worker mutex
 	mxHolder := -1
 	mxObj := 0
+	freed := map[int]bool{}
 	wufStatus := map[int]string{} // thread -> status loaded by the condition being evaluated
 	wufSeenLen := map[int]bool{}
 	recheckDone := func(t int) bool {
@@ -396,6 +397,12 @@ func projectDisp(s *vt.Sched, j int, qid string) ([]string, bool) {
 		if ev.Kind == "cwait" && strings.HasPrefix(fn, "worker.") {
 			mxHolder = -1
 		}
+		if ev.Kind == "recv" && fn == "Node.Serve" {
+			freed[t] = false
+		}
+		if (ev.Kind == "lock" && fn == "List.PushNode") || (ev.Kind == "send" && fn == "Node.Stop") {
+			freed[t] = true
+		}
 		if ev.Kind == "broadcast" && strings.HasPrefix(fn, "worker.") && mxHolder != t {
 			emit("? Broadcast issued without holding the worker mutex (a waiter between its check and its park can miss it)")
 		}
@@ -435,6 +442,9 @@ func projectDisp(s *vt.Sched, j int, qid string) ([]string, bool) {
 				}
 				tstate[t] = tNone
 			} else {
+				if !freed[t] {
+					emit("? completion released its curProcessing slot before returning its pool node (a barrier can then see 0 in flight while the node is in nobody's hands)")
+				}
 				if t == runner {
 					emit("releasej")
 					runner = -1
